@@ -37,6 +37,7 @@
 #include <fcppt/algorithm/map.hpp>
 #include <fcppt/algorithm/map_array.hpp>
 #include <fcppt/algorithm/map_concat.hpp>
+#include <fcppt/optional/make_if.hpp>
 #include <fcppt/algorithm/map_iteration.hpp>
 #include <fcppt/algorithm/map_iteration_second.hpp>
 #include <fcppt/algorithm/map_optional.hpp>
@@ -100,6 +101,7 @@
 #include <cstddef>
 #include <cstdint>
 #include <deque>
+#include <limits>
 #include <forward_list>
 #include <iterator>
 #include <list>
@@ -1588,6 +1590,51 @@ void chk_sequence_iteration(char const *kn, C &c, seq const &r)
     expect(visits, r, "sequence_iteration", kn, "visits-positional", par("mask", mask));
     expect(to_seq(d), want, "sequence_iteration", kn, "final-state-positional", par("mask", mask));
   }
+  // a callback that throws at its t-th invocation: "if the action returns remove, the element is removed" - the loop
+  // removes as it goes, so after the exception every earlier decision has taken effect and the rest is untouched
+  struct action_fault
+  {
+  };
+  for (unsigned mask = 0; mask < (1U << r.size()); ++mask)
+    for (std::size_t t = 0; t < r.size(); ++t)
+    {
+      vf::operands(200, mask, static_cast<long long>(t));
+      C d(c);
+      unsigned k = 0;
+      std::vector<std::size_t> sizes_seen;
+      bool thrown = false;
+      lib();
+      try
+      {
+        fcppt::algorithm::sequence_iteration(d, [&](int &) {
+          sizes_seen.push_back(static_cast<std::size_t>(std::distance(d.begin(), d.end())));
+          if (k == t)
+            throw action_fault{};
+          return ((mask >> k++) & 1U) != 0 ? update_action::remove : update_action::keep;
+        });
+      }
+      catch (action_fault const &)
+      {
+        thrown = true;
+      }
+      seq want;
+      std::vector<std::size_t> want_sizes;
+      std::size_t removed = 0;
+      for (std::size_t i = 0; i < r.size(); ++i)
+      {
+        if (i <= t)
+          want_sizes.push_back(r.size() - removed);
+        if (i < t && ((mask >> i) & 1U) != 0)
+          ++removed;
+        else
+          want.push_back(r[i]);
+      }
+      expect(thrown, true, "sequence_iteration", kn, "exception-swallowed", par("mask", mask));
+      expect(to_seq(d), want, "sequence_iteration", kn, "state-after-throwing-action", par("mask", mask) + " " + par("throw-at", static_cast<unsigned>(t)));
+      if (sizes_seen != want_sizes)
+        VF_COUNT("observed/sequence_iteration/size-seen-by-the-action-differs-from-erase-as-you-go");
+      VF_COUNT("sequence_iteration/throwing-action");
+    }
   VF_COUNT("judged/sequence_iteration");
 }
 
@@ -1938,6 +1985,62 @@ void chk_container_join_assoc(char const *kn, seq const &s)
     }
   }
   VF_COUNT("judged/join");
+  finish();
+}
+
+// containers that carry run-time state (a comparison object): the result of join is a copy of the FIRST container with
+// the others inserted, so it orders - and identifies - elements as the first argument does
+struct dircmp
+{
+  bool descending = false;
+  bool operator()(int a, int b) const { return descending ? b < a : a < b; }
+};
+inline bool fn_desc(int a, int b) { return b < a; }
+inline bool fn_mod2(int a, int b) { return (a % 2) < (b % 2); } // 0 and 2 are equivalent
+void chk_container_join_stateful(seq const &s)
+{
+  if (!start("set<stateful-compare>", s))
+    return;
+  std::size_t const n = s.size();
+  for (std::size_t k = 0; k <= n; ++k)
+  {
+    {
+      using S = std::set<int, dircmp>;
+      S a(s.begin(), s.begin() + static_cast<std::ptrdiff_t>(k), dircmp{true});
+      S const b(s.begin() + static_cast<std::ptrdiff_t>(k), s.end(), dircmp{true});
+      S want(s.begin(), s.end(), dircmp{true});
+      lib();
+      S const got = fcppt::container::join(a, b);
+      expect(to_seq(got), to_seq(want), "join", "set<dircmp>", "lvalue-first/order-of-the-first-argument", par("split", static_cast<unsigned>(k)));
+      lib();
+      S const got1 = fcppt::container::join(a);
+      expect(to_seq(got1), to_seq(a), "join", "set<dircmp>", "single-lvalue", par("split", static_cast<unsigned>(k)));
+      lib();
+      S const got2 = fcppt::container::join(S(a), b);
+      expect(to_seq(got2), to_seq(want), "join", "set<dircmp>", "rvalue-first/order-of-the-first-argument", par("split", static_cast<unsigned>(k)));
+    }
+    {
+      using F = std::set<int, bool (*)(int, int)>;
+      F a(s.begin(), s.begin() + static_cast<std::ptrdiff_t>(k), &fn_desc);
+      F const b(s.begin() + static_cast<std::ptrdiff_t>(k), s.end(), &fn_desc);
+      F want(s.begin(), s.end(), &fn_desc);
+      lib();
+      F const got = fcppt::container::join(a, b);
+      expect(to_seq(got), to_seq(want), "join", "set<fn-pointer>", "lvalue-first", par("split", static_cast<unsigned>(k)));
+      // an ordering under which distinct values are equivalent: the first argument's notion of "same element" decides
+      F c(s.begin(), s.begin() + static_cast<std::ptrdiff_t>(k), &fn_mod2);
+      F const d(s.begin() + static_cast<std::ptrdiff_t>(k), s.end(), &fn_mod2);
+      F want2(&fn_mod2);
+      for (int v : c)
+        want2.insert(v);
+      for (int v : d)
+        want2.insert(v);
+      lib();
+      F const got3 = fcppt::container::join(c, d);
+      expect(to_seq(got3), to_seq(want2), "join", "set<fn-pointer>", "lvalue-first/equivalence-of-the-first-argument", par("split", static_cast<unsigned>(k)));
+    }
+  }
+  VF_COUNT("judged/join-stateful-compare");
   finish();
 }
 
@@ -2775,6 +2878,79 @@ void vf_slice_12()
 }
 #endif
 #if VF_IN_SLICE(13)
+namespace
+{
+// int_range over NARROW integer types whose element count exceeds the type's own maximum ([-100,100) over signed char has
+// 200 elements): the algorithms return what the plain loop returns (the range's own size() is C18's subject)
+template <class I>
+void narrow_range_one(char const *tn, long long b, long long e)
+{
+  if (!vf::begin_case("int_range<%s>[%lld,%lld)", tn, b, e))
+    return;
+  vf::sample_case(1);
+  vf::note_distinct(vf::hash_mix(vf::hash_str(tn), static_cast<std::uint64_t>(b * 100003 + e)));
+  seq want;
+  for (long long i = b; i < e; ++i)
+    want.push_back(static_cast<int>(i));
+  auto const range = fcppt::make_int_range(static_cast<I>(b), static_cast<I>(e));
+  std::string const kn = std::string("int_range<") + tn + ">";
+  if (static_cast<long long>(want.size()) > static_cast<long long>(std::numeric_limits<I>::max()))
+    VF_COUNT("narrow-int-range/more-elements-than-the-type-holds");
+  lib();
+  auto const v = fcppt::algorithm::map<std::vector<int>>(range, [](I const i) { return static_cast<int>(i); });
+  expect(seq(v.begin(), v.end()), want, "map", kn.c_str(), "to-vector(reserves)");
+  lib();
+  auto const d = fcppt::algorithm::map<std::deque<int>>(range, [](I const i) { return static_cast<int>(i); });
+  expect(seq(d.begin(), d.end()), want, "map", kn.c_str(), "to-deque");
+  lib();
+  auto const mo = fcppt::algorithm::map_optional<std::vector<int>>(range, [](I const i) {
+    return fcppt::optional::make_if(i % 2 == 0, [i] { return static_cast<int>(i); });
+  });
+  seq want_even;
+  for (int x : want)
+    if (x % 2 == 0)
+      want_even.push_back(x);
+  expect(seq(mo.begin(), mo.end()), want_even, "map_optional", kn.c_str(), "to-vector");
+  lib();
+  long const sum = fcppt::algorithm::fold(range, 0L, [](I const i, long const acc) { return acc + static_cast<long>(i); });
+  long wsum = 0;
+  for (int x : want)
+    wsum += x;
+  expect(sum, wsum, "fold", kn.c_str(), "sum");
+  lib();
+  seq visited;
+  fcppt::algorithm::loop(range, [&visited](I const i) { visited.push_back(static_cast<int>(i)); });
+  expect(visited, want, "loop", kn.c_str(), "visits");
+  lib();
+  auto const mc = fcppt::algorithm::map_concat<std::vector<int>>(range, [](I const i) { return std::vector<int>{static_cast<int>(i)}; });
+  expect(seq(mc.begin(), mc.end()), want, "map_concat", kn.c_str(), "to-vector");
+  VF_COUNT("judged/narrow-int-ranges");
+  finish();
+}
+template <class I>
+void narrow_ranges(char const *tn)
+{
+  long long const lo = std::numeric_limits<I>::min(), hi = std::numeric_limits<I>::max();
+  std::vector<long long> pts{lo, lo + 1, lo + 28, -1, 0, 1, hi - 27, hi - 1, hi};
+  std::uint64_t idx = 0;
+  for (long long b : pts)
+    for (long long e : pts)
+      if (b >= lo && e <= hi && b <= e && e - b <= 70000 && vf::mine(idx++))
+        narrow_range_one<I>(tn, b, e);
+}
+void chk_narrow_int_ranges()
+{
+  std::string const entry = "algorithm/narrow-int-ranges";
+  if (!vf::entry_enabled(entry))
+    return;
+  vf::set_entry(entry);
+  narrow_ranges<signed char>("signed char");
+  narrow_ranges<unsigned char>("unsigned char");
+  narrow_ranges<short>("short");
+}
+}
+#endif
+#if VF_IN_SLICE(13)
 void vf_slice_13()
 {
   run(seq_rw{}, "container/join", L(), LIFT(chk_container_join));
@@ -2787,7 +2963,9 @@ void vf_slice_13()
     chk_container_join_assoc<std::set<int>>("set", s);
     chk_container_join_assoc<std::multiset<int>>("multiset", s);
     chk_container_join_assoc<std::map<int, int>>("map", s);
+    chk_container_join_stateful(s);
   }, true);
+  chk_narrow_int_ranges();
   run(kinds<k_vec, k_deque>{}, "container/at_optional", L(), LIFT(chk_at_optional));
   run_statics("container/at_optional", LIFT(chk_at_optional));
 }
@@ -3007,7 +3185,8 @@ void body()
         "at_optional/index-equals-size", "at_optional/beyond-size", "find_opt_mapped/found", "find_opt_mapped/absent",
         "get_or_insert/found", "get_or_insert/inserted", "get_or_insert/throwing-create", "set_difference/proper-non-empty",
         "set_ops/incomparable-operands", "set_ops/multiset-common-element-with-multiplicity", "array::from_range/size-matches", "array::from_range/source-longer",
-        "array::from_range/source-shorter", "array::append/an-empty-operand", "tuple::concat/an-empty-operand"})
+        "array::from_range/source-shorter", "array::append/an-empty-operand", "tuple::concat/an-empty-operand",
+        "sequence_iteration/throwing-action", "judged/join-stateful-compare", "narrow-int-range/more-elements-than-the-type-holds"})
     vf::require_bucket(b);
   vf_slice_0();
   vf_slice_1();
